@@ -37,3 +37,59 @@ def rot2_angle(env, name):
 def se2_angle(env, name):
     t = env.reals(name + 't', 2)
     return A.homog(env.np, rot2_angle(env, name), t)
+
+
+# ---- membership clauses ---------------------------------------------------------------------
+def check_SO(ck, np, name, R, n=None, tol=1e-9):
+    """R is orthonormal with determinant +1 (exact over the reals; the property asks for 1e-9)"""
+    n = n or R.shape[0]
+    ck.true(name + ':shape', tuple(R.shape) == (n, n))
+    ck.eq(name + ':RRt', R @ R.T, np.eye(n), tol=tol)
+    ck.eq(name + ':RtR', R.T @ R, np.eye(n), tol=tol)
+    ck.eq(name + ':det', A.det(np, R), 1, tol=tol)
+
+
+def check_SE(ck, np, name, T, n, tol=1e-9):
+    ck.true(name + ':shape', tuple(T.shape) == (n + 1, n + 1))
+    check_SO(ck, np, name, T[:n, :n], n, tol)
+    ck.eq(name + ':lastrow', T[n, :], np.array([0] * n + [1]), tol=0)
+
+
+def check_member(ck, np, name, M, cls, tol=1e-9):
+    if cls == 'SO2': check_SO(ck, np, name, M, 2, tol)
+    elif cls == 'SO3': check_SO(ck, np, name, M, 3, tol)
+    elif cls == 'SE2': check_SE(ck, np, name, M, 2, tol)
+    elif cls == 'SE3': check_SE(ck, np, name, M, 3, tol)
+    else: raise ValueError(cls)
+
+
+def check_unit_quat(ck, np, name, q, tol=1e-9):
+    ck.true(name + ':shape', tuple(q.shape) == (4,))
+    ck.eq(name + ':norm', A.normsq(np, q), 1, tol=tol)
+
+
+def axis3(env, name, lo=1e-3, hi=1e6):
+    """a 3-vector with length in [lo, hi] (the property's axis domain), given as length * unit direction
+    (every such vector has exactly one such representation, so nothing is lost)"""
+    u = env.unitvec(name + 'u', 3)
+    l = env.real(name + 'l', lo, hi, 'logmag')
+    return [l * x for x in u]
+
+
+def vec_form(env, v, form):
+    """present the vector v (list of scalars) in one of the accepted container forms"""
+    np = env.np
+    if form == 'list': return list(v)
+    if form == 'tuple': return tuple(v)
+    if form == 'array': return np.array(v)
+    if form == 'row': return np.array([list(v)])
+    if form == 'col': return np.array([[x] for x in v])
+    raise ValueError(form)
+
+
+UNITS = ['rad', 'deg']
+RPY_ORDERS = ['zyx', 'xyz', 'yxz', 'vehicle', 'arm', 'camera']
+
+
+def rad(env, a, unit):
+    return a if unit == 'rad' else a * env.pi / 180
